@@ -104,8 +104,8 @@ func (s *leafStream) Recv() (*protoCommonV1.TaskRequest, error) {
 // request kinds: 0 ok, 1 stage error, 2 not found, 3 wrapped not found, 4 stage panic,
 // 5 unknown database, 6 node is not a target, 7 plan not decodable, 8 payload not decodable
 type leafReq struct {
-	Kind   int  `json:"kind"`
-	Metric bool `json:"metric_suggest"` // false: namespace suggest
+	Kind   int    `json:"kind"`
+	Metric bool   `json:"metric_suggest"` // false: namespace suggest
 	Resp   []bool `json:"responses_without_error"`
 }
 
